@@ -319,3 +319,26 @@ def ledger_units():
 
 
 UNITS += ledger_units()
+
+
+# ------------------------------------------------------------------------------------------------ trivial constructors of the ledger objects (used by calc by contract)
+def ledger_ctor_units():
+    class EmptyRows:
+        @staticmethod
+        def ev_List(eng, e, st):
+            if e.elts: return NotImplemented
+            return [(st, V(nil, Led))]          # rows = []: the empty ledger
+
+    def build_usage():
+        fc = {'sig': {'self': RU}, 'requires': [('nn', lambda c: c['self'] != RU.null)],
+              'ensures': [('C03,C04/a-new-ledger-is-empty', lambda c: Select(c.fld('_ResourceUsage', 'rows'), c['self']) == nil)]}
+        return Engine(F, '_ResourceUsage.__init__', {}, SCHED_CLASSES, fc, plugins=[EmptyRows]), LEDGER_AX
+
+    def build_report():
+        fc = {'sig': {'self': RUR, 'rows': Led}, 'requires': [('nn', lambda c: c['self'] != RUR.null)],
+              'ensures': [('C03/the-report-reads-the-rows-handed-in', lambda c: Select(c.fld('ResourceUsageReport', '_ResourceUsageReport__rows'), c['self']) == c['rows'])]}
+        return Engine(F, 'ResourceUsageReport.__init__', {}, SCHED_CLASSES, fc), []
+    return [Unit('_ResourceUsage.__init__', F, build_usage, ['C03', 'C04']), Unit('ResourceUsageReport.__init__', F, build_report, ['C03'])]
+
+
+UNITS += ledger_ctor_units()
